@@ -25,6 +25,7 @@ import (
 	pq "github.com/pinealctx/neptune/syncx/pipe/q"
 
 	"nvharness/lib/c12sched"
+	"nvharness/lib/c12stress"
 	"nvharness/lib/corr"
 	"nvharness/lib/sched"
 )
@@ -357,6 +358,11 @@ func (r *runner) quiesce(skip *sched.Task) (rets []string, parked int, ok bool) 
 			}
 			_, res := t.Done()
 			r.seenRet[t] = true
+			if strings.HasPrefix(res, "panic:") {
+				// a call panicked — it may have left the queue's mutex locked: report it and never touch this queue again
+				r.hit(t.Name, "panic", fmt.Sprintf("a %s call panicked: %s", t.Name, res))
+				r.dead = "panic"
+			}
 			if t == skip {
 				r.skipState = "ret:" + res
 			}
@@ -791,11 +797,21 @@ func (r *runner) line(l string) string {
 	return "bad-op"
 }
 
-func (r *runner) priLine(f []string, l string) string {
+func (r *runner) priLine(f []string, l string) (out string) {
+	defer func() {
+		if p := recover(); p != nil {
+			r.hit(f[0], "panic", fmt.Sprintf("`%s` panicked: %v", l, p))
+			r.dead = "panic" // the mutex may be left locked: abandon this queue
+			out = fmt.Sprintf("panic:%v", p)
+		}
+	}()
 	finish := func(res string, skip *sched.Task) string {
 		rets, parked, ok := r.quiesce(skip)
 		if !ok {
 			return "harness-error"
+		}
+		if r.dead != "" {
+			return res + suffix(rets, parked)
 		}
 		// the property at a quiescent point: no Push/Pop in progress (calls are sequential), no unfollowed signal held
 		n, w := r.pq.Len(), len(r.pq.WaitCh())
@@ -893,6 +909,10 @@ func init() { c12sched.RetryFrames = []string{"AddReqAnyway", "AddAnyway", "AddC
 
 // RunCase executes one script. prop ("C12" / "C13") prefixes the monitor keys.
 func RunCase(prop string, c corr.Case) (res corr.Result) {
+	if len(c.Lines) == 1 && strings.HasPrefix(c.Lines[0], "stress ") {
+		out, hits := c12stress.Line(prop, strings.Fields(c.Lines[0]))
+		return corr.Result{Outs: []string{out}, Hits: hits}
+	}
 	r := &runner{prop: prop, s: sched.New(), seen: map[string]bool{}, seenRet: map[*sched.Task]bool{}, waiter: map[*sched.Task]string{}, spinItem: map[*sched.Task]int{}, accepted: map[int]int{}, handed: map[int]int{},
 		quit: make(chan struct{})}
 	r.ctx, r.cancel = context.WithCancel(context.Background())
@@ -943,7 +963,7 @@ func (r *runner) cleanup() {
 	if r.cancel != nil {
 		r.cancel() // WaitClose / WaitClear callers a defective Close left behind
 	}
-	if r.lq != nil {
+	if r.lq != nil && r.dead != "panic" {
 		r.lq.close()
 		_ = c12sched.Settle(10 * time.Second)
 		for _, t := range r.tasks {
